@@ -169,15 +169,17 @@ theorem NInv.advance {v : NView} {log : List WRec} (h : NInv v log) (ha : v.aliv
 theorem handleHvr_npres (C : Crypto) (L : Loc) (e : Ep) (b : Bytes) : NPres e (handleHvr C L e b) := by
   unfold handleHvr
   split
-  · intro log ha hi
-    have := hi.advance (by simpa [nview] using ha) 1
-      (some [(hsRecord { e.ctx with transcript := rawMsg dtlsHtClientHello e.ctx.msgSeq L.ch2Body } (rawMsg dtlsHtClientHello e.ctx.msgSeq L.ch2Body) false).1])
-      (Or.inr (by intro fl hfl w hw; cases hfl; simp [hsRecord] at hw; subst hw; simp))
-    dsimp only
-    split
-    · exact ⟨by simpa [nview, hsRecord, sends, sealedOf] using this, ha⟩
-    · exact ⟨by simpa [nview, RtcModel.DtlsHs.ok, hsRecord, sends, sealedOf] using this, ha⟩
   · exact NPres.ok e
+  · split
+    · intro log ha hi
+      have := hi.advance (by simpa [nview] using ha) 1
+        (some [(hsRecord { e.ctx with transcript := rawMsg dtlsHtClientHello e.ctx.msgSeq L.ch2Body } (rawMsg dtlsHtClientHello e.ctx.msgSeq L.ch2Body) false).1])
+        (Or.inr (by intro fl hfl w hw; cases hfl; simp [hsRecord] at hw; subst hw; simp))
+      dsimp only
+      split
+      · exact ⟨by simpa [nview, hsRecord, sends, sealedOf] using this, ha⟩
+      · exact ⟨by simpa [nview, RtcModel.DtlsHs.ok, hsRecord, sends, sealedOf] using this, ha⟩
+    · exact NPres.ok e
 
 
 theorem serverFlight_unsealed (L : Loc) (c : Ctx) : ∀ w ∈ (serverFlight L c).1, w.sealed = false := by
@@ -366,47 +368,49 @@ theorem handleServerHelloDone_npres (C : Crypto) (L : Loc) (e : Ep) : NPres e (h
   unfold handleServerHelloDone
   split
   · exact NPres.ok e
-  · rename_i hk
-    split
-    · exact NPres.failed e
-    · dsimp only
-      have f1 : (emitMsg e.ctx dtlsHtClientKeyExchange L.ckeBody false).1.sealed = false := by simp [emitMsg, hsRecord]
-      have f2 : (emitMsg e.ctx dtlsHtClientKeyExchange L.ckeBody false).2.seqNum = e.ctx.seqNum + 1 := rfl
-      have f3 : (emitMsg e.ctx dtlsHtClientKeyExchange L.ckeBody false).2.epoch = e.ctx.epoch := rfl
-      have f4 : (emitMsg e.ctx dtlsHtClientKeyExchange L.ckeBody false).2.lastFlight = e.ctx.lastFlight := rfl
-      have f5 : (emitMsg e.ctx dtlsHtClientKeyExchange L.ckeBody false).2.keys = e.ctx.keys := rfl
-      generalize emitMsg e.ctx dtlsHtClientKeyExchange L.ckeBody false = kc at f1 f2 f3 f4 f5 ⊢
+  · split
+    · exact NPres.ok e
+    · rename_i hk
       split
-      · -- no keys: only the ClientKeyExchange went out
-        intro log ha hi
-        refine ⟨?_, ha⟩
-        have := hi.advance (by simpa [nview] using ha) 1 e.ctx.lastFlight (Or.inl rfl)
-        have hso : sealedOf (sends [kc.1]) = [] := by simp [sends, sealedOf, f1]
-        simp only [RtcModel.DtlsHs.ok, hso, List.append_nil]
-        simpa [nview, withCtx, f2, f3, f4, f5] using this
-      · rename_i k _
-        obtain ⟨rc, rf, h1, h2, h3, h4, h5, h6, h7⟩ := clientFinalFlight_spec C kc.2 k
-        intro log ha hi
-        refine ⟨?_, ha⟩
-        have hw : (nview e).writeEpoch = 0 := by
-          by_cases h0 : (nview e).writeEpoch = 0
-          · exact h0
-          · have := (hi.pub h0).2
-            simp [nview] at this
-            simp [this] at hk
-        have hlf : ∀ w ∈ [kc.1, rc, rf], w.sealed = true → w = rf := by
-          intro w hw hs
-          simp at hw
-          rcases hw with rfl | rfl | rfl
-          · rw [f1] at hs; cases hs
-          · rw [h2] at hs; cases hs
-          · rfl
-        have s0 := hi.advance (by simpa [nview] using ha) 1 e.ctx.lastFlight (Or.inl rfl)
-        have s1 := s0.new_epoch hw true rf (by simpa [nview, f3] using h3) h4 _ hlf
-        have hso : sealedOf (sends (kc.1 :: (clientFinalFlight C kc.2 k).1)) = if rf.sealed then [rf] else [] := by
-          rw [h1]; simp [sends, sealedOf, f1, h2]
-        simp only [RtcModel.DtlsHs.ok, hso]
-        simpa [nview, withCtx, h1, h6, h7, f3] using s1
+      · exact NPres.failed e
+      · dsimp only
+        have f1 : (emitMsg e.ctx dtlsHtClientKeyExchange L.ckeBody false).1.sealed = false := by simp [emitMsg, hsRecord]
+        have f2 : (emitMsg e.ctx dtlsHtClientKeyExchange L.ckeBody false).2.seqNum = e.ctx.seqNum + 1 := rfl
+        have f3 : (emitMsg e.ctx dtlsHtClientKeyExchange L.ckeBody false).2.epoch = e.ctx.epoch := rfl
+        have f4 : (emitMsg e.ctx dtlsHtClientKeyExchange L.ckeBody false).2.lastFlight = e.ctx.lastFlight := rfl
+        have f5 : (emitMsg e.ctx dtlsHtClientKeyExchange L.ckeBody false).2.keys = e.ctx.keys := rfl
+        generalize emitMsg e.ctx dtlsHtClientKeyExchange L.ckeBody false = kc at f1 f2 f3 f4 f5 ⊢
+        split
+        · -- no keys: only the ClientKeyExchange went out
+          intro log ha hi
+          refine ⟨?_, ha⟩
+          have := hi.advance (by simpa [nview] using ha) 1 e.ctx.lastFlight (Or.inl rfl)
+          have hso : sealedOf (sends [kc.1]) = [] := by simp [sends, sealedOf, f1]
+          simp only [RtcModel.DtlsHs.ok, hso, List.append_nil]
+          simpa [nview, withCtx, f2, f3, f4, f5] using this
+        · rename_i k _
+          obtain ⟨rc, rf, h1, h2, h3, h4, h5, h6, h7⟩ := clientFinalFlight_spec C kc.2 k
+          intro log ha hi
+          refine ⟨?_, ha⟩
+          have hw : (nview e).writeEpoch = 0 := by
+            by_cases h0 : (nview e).writeEpoch = 0
+            · exact h0
+            · have := (hi.pub h0).2
+              simp [nview] at this
+              simp [this] at hk
+          have hlf : ∀ w ∈ [kc.1, rc, rf], w.sealed = true → w = rf := by
+            intro w hw hs
+            simp at hw
+            rcases hw with rfl | rfl | rfl
+            · rw [f1] at hs; cases hs
+            · rw [h2] at hs; cases hs
+            · rfl
+          have s0 := hi.advance (by simpa [nview] using ha) 1 e.ctx.lastFlight (Or.inl rfl)
+          have s1 := s0.new_epoch hw true rf (by simpa [nview, f3] using h3) h4 _ hlf
+          have hso : sealedOf (sends (kc.1 :: (clientFinalFlight C kc.2 k).1)) = if rf.sealed then [rf] else [] := by
+            rw [h1]; simp [sends, sealedOf, f1, h2]
+          simp only [RtcModel.DtlsHs.ok, hso]
+          simpa [nview, withCtx, h1, h6, h7, f3] using s1
 
 theorem handleMsg_npres (C : Crypto) (L : Loc) (e : Ep) (t : Nat) (b raw : Bytes) : NPres e (handleMsg C L e t b raw) := by
   unfold handleMsg
